@@ -11,7 +11,7 @@ using namespace argh;
 
 namespace {
 
-struct Work { Config cfg; Line line; RealInput in; bool broken = false; unsigned spin = 0; };
+struct Work { Config cfg; Line line; RealInput in; bool broken = false; unsigned spin = 0; bool usage = false; };
 struct Case { std::vector<Work> work; unsigned repeats = 1; };
 
 std::string showCase(const Case &c) {
@@ -73,6 +73,9 @@ std::string runCase(const Case &c) {
     });
   }
   while (ready.load() < T) std::this_thread::yield();
+  // the threads start like a fresh process: process-wide library state (the Groups singleton that Handler::usage()
+  // consults) does not exist yet, so their first accesses race
+  resetGlobalState();
   go.store(true, std::memory_order_release);
   for (auto &th : threads) th.join();
   for (size_t t = 0; t < T; ++t)
@@ -92,6 +95,7 @@ std::string runCase(const Case &c) {
     for (auto &a : wk.cfg.args) if (!a.constraints.empty()) cons = true;
     if (cons) ++withConstraints;
     if (wk.broken) st.cls("mt.broken_line");
+    if (std::find(wk.in.argv.begin(), wk.in.argv.end(), "--help") != wk.in.argv.end()) st.cls("mt.usage_printed");
   }
   st.cls("mt.threads", T);
   st.cls("mt.evaluations", T * c.repeats);
@@ -129,6 +133,13 @@ rc::Gen<Case> genCase() {
       }
       wk.in.argv = {"prog" + std::to_string(t)};
       for (auto &w : spell(wk.cfg, wk.line, SpellOptions())) wk.in.argv.push_back(w);
+      // some threads also print their usage (into their own stream): Handler::usage() consults the process-wide
+      // Groups singleton, the only state that independent handlers share
+      if (pick(25)) {
+        bool clash = false;
+        for (auto &a : wk.cfg.args) if (a.shortKey == 'h' || a.longKey == "help") clash = true;
+        if (!clash) { wk.cfg.flags |= F_HELP_LONG; wk.in.argv.insert(wk.in.argv.begin() + 1, "--help"); wk.usage = true; }
+      }
       wk.spin = *range<unsigned>(0, 3000);
       c.work.push_back(wk);
     }
